@@ -39,7 +39,7 @@ func init() {
 	}
 	campaigns["C11"] = func(e *env) error {
 		e.rep.Rule = "cases = (converter, method, source): (a) methods with `default FUNC` over the four pointer shapes (T->U, *T->*U, T->*U, *T->U) with constructors returning a value or a pointer, with/without source argument and error result, combined with default:update at converter and method level, ignored fields and useZeroValueOnPointerInconsistency; constructors return a recognisable value (numbers 7, strings \"ctor\"); (b) random structural converters with pointer perturbations, and the PINNED pointer matrix: every pair of T, *T, **T on either side x {top level, struct field, slice element, map value} x inner type {int, struct, slice, map; thorough: also string, slices of pointers, maps of slices} x flag on/off. Executed on nil and non-nil sources; compared with Gv.Gen + Gv.Eval. non-trivial = every call; distinct = (converter, method, source)"
-		b, per := 2, 30
+		b, per := 4, 30
 		if e.thorough {
 			b, per = 10*e.scale, 50
 		}
@@ -47,7 +47,7 @@ func init() {
 			return err
 		}
 		r := e.r.Fork(11)
-		n, pb := 1, 50
+		n, pb := 2, 50
 		if e.thorough {
 			n, pb = 6*e.scale, 100
 		}
@@ -65,7 +65,7 @@ func init() {
 	}
 	campaigns["C10"] = func(e *env) error {
 		e.rep.Rule = "cases = (converter, method, source, target pre-state): update methods (source struct or pointer, either argument order, with or without error result) with the 2^3 zero-value categories set at converter and method level and skipCopySameType; the target instance is pre-filled with recognisable values, the source has zero / non-zero / nil fields; observed: the target instance after the call; compared with Gv.Eval (Body.update, zero checks). non-trivial = every call; distinct = (converter, method, arguments)"
-		b, per := 2, 30
+		b, per := 4, 30
 		if e.thorough {
 			b, per = 10*e.scale, 50
 		}
@@ -76,7 +76,7 @@ func init() {
 	}
 	campaigns["C05"] = func(e *env) error {
 		e.rep.Rule = "cases = (converter, method, source): struct pairs whose target fields are fed by goverter:map (renamed field, dotted paths through values and pointers incl. two pointer levels, `.` for the whole source), autoMap, matchIgnoreCase with exact-match preference, ignore and ignoreMissing, on a method that is also reached from sibling methods through slices and pointers (settings must neither leak nor be bypassed); occasionally settings naming fields that do not exist; executed on values with distinct leaves and nil at every pointer of a path; compared with Gv.Gen + Gv.Eval. non-trivial = every call or diagnostic; distinct = (converter, method, source)"
-		b, per := 2, 30
+		b, per := 4, 30
 		if e.thorough {
 			b, per = 10*e.scale, 50
 		}
@@ -88,7 +88,7 @@ func init() {
 	}
 	campaigns["C08"] = func(e *env) error {
 		e.rep.Rule = "cases = (converter, method, value): enum pairs over int, uint8 and string underlying types with duplicate-valued members, mapped by enum:transform regex and enum:map (members and actions), with every enum:unknown policy (@error, @panic, @ignore, a member, missing), in top-level, struct field, slice element and map value positions; executed over member and non-member values; compared with Gv.Gen (outcome) + Gv.Eval (switch semantics). non-trivial = every call or diagnostic; distinct = (converter, method, value)"
-		b, per := 2, 30
+		b, per := 4, 30
 		if e.thorough {
 			b, per = 10*e.scale, 50
 		}
